@@ -3,6 +3,11 @@
 import json, subprocess
 
 BUILT = {
+ "C15": dict(level="exploration",
+   technique="grammar-based generation with token/bracket bookkeeping: mode differential on complete programs, continuation oracle on generated cut points, and chunked-vs-batch evaluation of typed scripts",
+   text="Programs are printed from harness-owned trees with random layout; the printer records for every token which constructs are open after it. (1) Complete programs must parse to the intended tree in line mode and in file mode. (2) Up to 25 cuts per program at token boundaries inside an open parenthesis, bracket, block or map, right after a binary operator, and inside string literals and block comments: line mode must ask for a continuation without error, and prefix + newline + rest must parse to the tree of the whole program (not compared where a call/index bracket must follow without whitespace). (3) Typed-grammar scripts with functions, closures, loops and macros defined before use are evaluated at once and in consecutive chunks at generated statement boundaries on one session: concatenated output and final globals must agree.",
+   note="Cuts after prefix operators, dots and if/for/else are labelled but not asserted. Scripts that fail when run at once are skipped and counted.",
+   ref="DESIGN.md section 3, C15"),
  "C14": dict(level="exploration",
    technique="round-trip testing of generated global environments (SaveGlobals -> AutoLoad line by line and load() whole file -> compare values, types, function text and behaviour; save fixpoint) plus stateful save/load/mutate cycles against a model",
    text="Generated environments hold integers (both extremes), floats (integral-valued, -0, subnormal, huge, infinities, NaN), strings over all bytes, nested arrays and maps with keys of every type and sizes around the thresholds, and named functions / func literals / lambdas whose bodies come from the full statement grammar with comments; they are saved with State.SaveGlobals and loaded into fresh states both ways. Checked: one line per binding with the right prefix, sorted; no load error; identical type and structure of every data value; identical printed form and identical output / result / error of every function on three generated argument tuples; saving the reloaded state gives identical bytes; with a length limit longer values are absent and all others present (values placed right at the limit). A stateful generator adds save / load / mutate cycles through the language's own save() and load() against a model.",
